@@ -176,7 +176,7 @@ func (b *Dec3Box) Info(w io.Writer, specificBoxLevels, indent, indentStep string
 	bd := newInfoDumper(w, indent, b, -1, 0)
 	bd.write(" - bitrate=%dkbps", b.DataRate)
 	fscod := b.EC3Subs[0].FSCod
-	bd.write(" - sampleRateCode=%d => sampleRate=%d", fscod, AC3SampleRates[fscod])
+	bd.write(" - sampleRateCode=%d => sampleRate=%d", fscod, ac3SampleRate(fscod))
 	nrChannels, chanmap := b.ChannelInfo()
 	bd.write(" - nrChannels=%d, chanmap=%04x", nrChannels, chanmap)
 	bd.write(" - nrSubstreams=%d", len(b.EC3Subs))
